@@ -16,6 +16,12 @@ package type1005
 //@ ensures[C05] r1 == nil ==> r0.AntennaRefX == sbits(bitStream, 58, 38) && r0.Ignored2 == bits(bitStream, 96, 2) && r0.AntennaRefY == sbits(bitStream, 98, 38) && r0.Ignored3 == bits(bitStream, 136, 2) && r0.AntennaRefZ == sbits(bitStream, 138, 38)
 //@ ensures[C05] r1 == nil ==> r0.logLevel == logLevel
 
+// Display (C05): the value that reaches each %.4f verb is within 1e-6 of the
+// encoded integer times 0.0001, so that any correctly rounding formatter prints
+// exactly that decimal to four places (the nearest other 4-decimal value is 1e-4 away).
+//@ define coord38(v) = 0 - 137438953472 <= v && v < 137438953472
 //@ func (*Message).String
 //@ requires[C07] message != nil
+//@ requires[C05] coord38(message.AntennaRefX) && coord38(message.AntennaRefY) && coord38(message.AntennaRefZ)
 //@ arith wrap
+//@ atcall[C05] fmt.Sprintf /^ECEF coords in metres \(%\.4f, %\.4f, %\.4f\)/: abs(argreal(a1, 0) - real(message.AntennaRefX) / 10000.0) <= 0.000001 && abs(argreal(a1, 1) - real(message.AntennaRefY) / 10000.0) <= 0.000001 && abs(argreal(a1, 2) - real(message.AntennaRefZ) / 10000.0) <= 0.000001
